@@ -51,8 +51,15 @@ def main():
             elif k == 'next':
                 # the same access made by a plain iteration in flight (position op['i'])
                 if op['it'] not in its:
-                    its[op['it']] = (op['w'], iter(holders[op['w']][0]))
-                rep = {'val': next(its[op['it']][1])}
+                    d_ = holders[op['w']][0]
+                    its[op['it']] = (op['w'], iter(d_.items()) if op.get('items') else iter(d_))
+                    del d_
+                v_ = next(its[op['it']][1])
+                if op.get('items'):
+                    # keyed iteration: the pair must carry the key of its position
+                    rep = {'val': v_[1]} if v_[0] == f"k{op['i']}" else {'err': 'mispaired key ' + str(v_[0])}
+                else:
+                    rep = {'val': v_}
             elif k == 'copy':
                 holders[op['w']].append(holders[op['w']][0].copy())
                 rep = 'ok'
